@@ -10,6 +10,8 @@
 (* (rejecting, or verifying to a different root, is always fine).          *)
 (* Deviation flag ReweightSiblings: the plan moved claimed weight between  *)
 (* sibling slots of a branch record keeping their sum (known finding).     *)
+(* Deviation flag TypeConfusion: the plan passed the hash preimage of a    *)
+(* branch / short node off as a value record (known finding).              *)
 (***************************************************************************)
 EXTENDS Naturals, Sequences, FiniteSets, TLC, Json, IOUtils
 
@@ -19,6 +21,7 @@ tvars == <<l, bad, nbad, ntr>>
 MaxBad == 40
 \* deviations are kept per class (operation, failed checks, deviation flags): a flood of one class never hides another
 KeepBad(bd, op, fl, dv) == Cardinality({b \in bd : b[3] = op /\ b[4] = fl /\ b[5] = dv}) < 6 /\ Cardinality(bd) < 40 * MaxBad
+DevOf(e) == (IF e.reweighted THEN {"ReweightSiblings"} ELSE {}) \cup (IF e.imitated THEN {"TypeConfusion"} ELSE {})
 Flag(cond, name) == IF cond THEN {} ELSE {name}
 
 RECURSIVE OwnerVal(_, _, _)
@@ -41,8 +44,8 @@ TraceNext ==
          f == EventFlags(e)
      IN  /\ l' = l + 1 /\ ntr' = ntr + 1
          /\ nbad' = IF f = {} THEN nbad ELSE nbad + 1
-         /\ bad' = IF f = {} \/ ~KeepBad(bad, e.op, f, IF e.reweighted THEN {"ReweightSiblings"} ELSE {}) THEN bad
-                   ELSE bad \cup {<<e.tid, l, e.op, f, IF e.reweighted THEN {"ReweightSiblings"} ELSE {}>>}
+         /\ bad' = IF f = {} \/ ~KeepBad(bad, e.op, f, DevOf(e)) THEN bad
+                   ELSE bad \cup {<<e.tid, l, e.op, f, DevOf(e)>>}
 TraceSpec == TraceInit /\ [][TraceNext]_tvars
 Report == l <= Len(Trace) \/ PrintT(<<"VERIF_RESULT", l - 1, ntr, nbad, bad>>)
 =============================================================================
